@@ -220,8 +220,19 @@ func newWorld(t *testing.T, s *hx.Suite, out *hx.Out, rng *rand.Rand, chain stri
 		rebonded: map[int]bool{}, reported: map[string]bool{}, unbonded: map[int]bool{}, touched: map[common.Address]bool{}, touchedCode: map[common.Address]bool{}, former: map[int][]int{}, pr: sdk.DefaultPowerReduction, multiple: mult}
 	w.threshold = w.pr.MulRaw(thrUnits)
 	rich := sdk.NewCoin(fxtypes.DefaultDenom, w.pr.MulRaw(100_000_000))
+	poor := -1 // one oracle account that can pay the minimum stake twice but not more: larger bonds / add-delegates fail in the bank
+	if nO >= 3 && rng.Intn(2) == 0 {
+		poor = nO - 1
+	}
 	for i := 0; i < nO; i++ {
 		a := helpers.GenAccAddress()
+		if i == poor {
+			s.MintToken(a, sdk.NewCoin(fxtypes.DefaultDenom, w.threshold.MulRaw(2)))
+			w.oracles = append(w.oracles, a)
+			w.oracleID[a.String()] = oracleBase + i
+			out.Count("world:underfunded-oracle")
+			continue
+		}
 		s.MintToken(a, rich)
 		w.oracles = append(w.oracles, a)
 		w.oracleID[a.String()] = oracleBase + i
